@@ -421,6 +421,9 @@ def _fold_dict_stores(stmts):
     return out
 
 
+_CLOSURE_NAMES = []  # per enclosing function being canonicalised: names read by its nested functions / lambdas
+
+
 def _split_tuple_assigns(stmts):
     """`a, b = (x, y)` with plain names on the left that do not occur on the right -> `a = x`, `b = y`"""
     out = []
@@ -429,7 +432,11 @@ def _split_tuple_assigns(stmts):
             # components `x = x` change nothing
             pairs = [(t, v) for t, v in zip(s.targets[0].elts, s.value.elts) if not (isinstance(v, ast.Name) and v.id == t.id)]
             tnames = {t.id for t, _ in pairs}
-            if len(tnames) == len(pairs) and len({t.id for t in s.targets[0].elts}) == len(s.targets[0].elts) and not any(isinstance(n, ast.Name) and n.id in tnames for _, v in pairs for n in ast.walk(v)) and not any(isinstance(n, (ast.Call, ast.Yield, ast.YieldFrom, ast.Await)) for _, v in pairs[1:] for n in ast.walk(v)):
+            # a call in a later component runs after the earlier targets are bound: visible only to a closure
+            # that reads one of them
+            later_calls = any(isinstance(n, (ast.Call, ast.Yield, ast.YieldFrom, ast.Await)) for _, v in pairs[1:] for n in ast.walk(v))
+            captured = bool(_CLOSURE_NAMES and (tnames & _CLOSURE_NAMES[-1])) or not _CLOSURE_NAMES
+            if len(tnames) == len(pairs) and len({t.id for t in s.targets[0].elts}) == len(s.targets[0].elts) and not any(isinstance(n, ast.Name) and n.id in tnames for _, v in pairs for n in ast.walk(v)) and not (later_calls and (captured or any(isinstance(n, (ast.Yield, ast.YieldFrom, ast.Await)) for _, v in pairs for n in ast.walk(v)))):
                 for t, v in pairs:
                     out.append(_loc(ast.Assign(targets=[t], value=v), s))
                 if not pairs:
@@ -705,11 +712,35 @@ def _small_rest(res):
     return len(res) <= 2 and all(isinstance(x, (ast.Return, ast.Raise, ast.Assign, ast.Expr)) for x in res) and sum(1 for x in res for _ in ast.walk(x)) <= 40 and isinstance(res[-1], (ast.Return, ast.Raise))
 
 
+def _fold_constant_ifs(stmts):
+    out = []
+    for s in stmts:
+        if isinstance(s, ast.If) and isinstance(s.test, ast.Constant) and (s.test.value is None or isinstance(s.test.value, bool)):
+            out.extend(s.body if s.test.value else s.orelse)
+        else:
+            out.append(s)
+    return out or ([_loc(ast.Pass(), stmts[0])] if stmts else [])
+
+
+def _hoist_common_tail(s, res):
+    """`if c: A; S else: B; S` -> `if c: A else: B` followed by S (S = the same last statement of both arms)"""
+    moved = []
+    while s.body and s.orelse and _dump(s.body[-1]) == _dump(s.orelse[-1]) and (len(s.body) > 1 or len(s.orelse) > 1):
+        moved.insert(0, s.body.pop())
+        s.orelse.pop()
+    if not moved:
+        return s, res
+    if not s.body:
+        s.body = [_loc(ast.Pass(), s)]
+    return s, moved + list(res)
+
+
 def canon_block(stmts):
     """bottom-up: guard clauses become if/else nests; negated tests are swapped"""
     out = []
     i = 0
     stmts = [canon_stmt(s) for s in stmts]
+    stmts = _fold_constant_ifs(stmts)
     if len(stmts) > 1:
         stmts = [s for s in stmts if not isinstance(s, ast.Pass)] or stmts[:1]
     stmts = _strip_annotations(stmts)
@@ -747,6 +778,15 @@ def canon_block(stmts):
             res = [swap_if(s)]
         else:
             res.insert(0, swap_if(s) if isinstance(s, ast.If) else s)
+    hoisted = []
+    for k, s in enumerate(res):
+        if isinstance(s, ast.If) and s.orelse:
+            s, tail = _hoist_common_tail(s, [])
+            hoisted.append(swap_if(s) if tail else s)
+            hoisted.extend(tail)
+        else:
+            hoisted.append(s)
+    res = hoisted
     res = [_bool_if_deep(s) for s in res]
     if len(res) > 1:
         res = [s for s in res if not isinstance(s, ast.Pass)] or res[:1]
@@ -1035,9 +1075,11 @@ def _drop_dead_constant_stores(fnode):
     Decided by reaching definitions (sa/refnorm.webs): the store's def-use web contains no read."""
     from .refnorm import webs, local_names
 
+    from .unextract import _pure
+
     cands = []
     for n in ast.walk(fnode):
-        if isinstance(n, ast.Assign) and len(n.targets) == 1 and isinstance(n.targets[0], ast.Name) and _is_const(n.value):
+        if isinstance(n, ast.Assign) and len(n.targets) == 1 and isinstance(n.targets[0], ast.Name):
             cands.append(n)
     if not cands:
         return False
@@ -1054,10 +1096,12 @@ def _drop_dead_constant_stores(fnode):
     dead = [n for n in cands if n.targets[0].id in loc and n.targets[0].id not in captured and id(n.targets[0]) in w and w[id(n.targets[0])] not in read_webs]
     if not dead:
         return False
-    dead_ids = {id(n) for n in dead}
+    # a dead store of a value with possible effects keeps the evaluation: `x = f()` -> `f()`
+    dead_ids = {id(n) for n in dead if _is_const(n.value) or _pure(n.value)}
+    effect_ids = {id(n) for n in dead} - dead_ids
 
     def prune(lst):
-        keep = [x for x in lst if id(x) not in dead_ids]
+        keep = [(_loc(ast.Expr(value=x.value), x) if id(x) in effect_ids else x) for x in lst if id(x) not in dead_ids]
         for x in keep:
             for f in ("body", "orelse", "finalbody"):
                 sub = getattr(x, f, None)
@@ -1367,6 +1411,20 @@ def swap_if(s):
 
 
 def canon_stmt(s):
+    if isinstance(s, (ast.FunctionDef, ast.AsyncFunctionDef)):
+        _CLOSURE_NAMES.append({x.id for n in ast.walk(s) if n is not s and isinstance(n, (ast.FunctionDef, ast.AsyncFunctionDef, ast.Lambda)) for x in ast.walk(n) if isinstance(x, ast.Name)})
+        try:
+            return _canon_function(s)
+        finally:
+            _CLOSURE_NAMES.pop()
+    return _canon_stmt(s)
+
+
+def _canon_function(s):
+    return _canon_stmt(s)
+
+
+def _canon_stmt(s):
     if isinstance(s, (ast.FunctionDef, ast.AsyncFunctionDef)):
         if not _returns_value(s):
             s.body = _tail_breaks_to_returns(_strip_tail_returns(s.body))
